@@ -17,7 +17,9 @@ PROP = {
     "assumptions": [],
 }
 
-ALPHABET = ["", "a", "A", "a ", " a", "b", "ab", "B", "é", "É"]
+import numpy as np
+
+ALPHABET = ["", "a", "A", "a ", " a", "b", "ab", "B", "é", "É", "3", "0", "a\tb", "L" * 200]
 TYPES = ["data3D", "force3D", "emg", "events"]
 
 
@@ -30,6 +32,8 @@ def strategy_for(t):
             spec = draw(specs.SPEC[t]("quick"))
             k = draw(st.integers(0, top))
             sub = draw(st.lists(st.sampled_from(ALPHABET), min_size=1, max_size=4))
+            if draw(st.integers(0, 5)) == 0:
+                k = draw(st.integers(13, 40))      # more items than any small fixed-size cache
             labs = draw(st.lists(st.sampled_from(sub), min_size=k, max_size=k))
             spec = dict(spec)
             if t == "events":
@@ -90,7 +94,7 @@ def make_run(t):
                 if exc is None and not (-n <= i and got is items[i]):
                     ctx.fail("index-negative-wrong-item", f"{t}: b[{i}] returned an item that is not items[{i}]")
         # labels
-        for lab in ALPHABET + ["zz", "a  ", "Ab"]:
+        for lab in ALPHABET + ["zz", "a  ", "Ab"] + [x + "\x00" for x in ALPHABET[:6]] + ["\x00", "a\x00\x00", "3", "0", "-1", "a\tb"]:
             first = next((it for it in items if it.label == lab), None)
             try:
                 got = b[lab]
@@ -122,7 +126,11 @@ def make_run(t):
             if not inside:
                 ctx.fail("membership-item-false", f"{t}: iterated item {i} is reported as not contained")
         # foreign key types
-        for key in (None, 1.5, b"a", ("a",), slice(0, 1), [0], {"a": 1}):
+        import decimal
+        import fractions
+
+        for key in (None, 1.5, b"a", ("a",), slice(0, 1), [0], {"a": 1}, 0.0, 1.0, 2.0, -1.0, float(n), np.float64(1.0), np.float32(0.0),
+                    fractions.Fraction(1), decimal.Decimal(2), complex(1, 0), b"", bytearray(b"a")):
             try:
                 b[key]
                 ctx.fail("foreign-key-accepted", f"{t}: b[{key!r}] did not raise")
@@ -170,6 +178,29 @@ def make_run(t):
                 ctx.fail("after-add/index-stale", f"{t}: after adding an item, b[{n}] is not the new item")
         except Exception as e:  # noqa
             ctx.fail("after-add/raises", f"{t}: accessor raised {type(e).__name__} after an item was added")
+        if n >= 2:
+            # a label changed in place: lookups must follow the item's CURRENT label
+            target = items[-1]
+            old_label = target.label
+            target.label = "renamed"
+            try:
+                got = b["renamed"]
+            except Exception as e:  # noqa
+                got = e
+            if got is not target:
+                ctx.fail("after-rename/label-lookup-stale", f"{t}: after an item's label was changed to 'renamed', b['renamed'] gives {type(got).__name__}")
+            still = next((it for it in list(iter(b)) if it.label == old_label), None)
+            try:
+                got_old = b[old_label]
+            except KeyError:
+                got_old = None
+            except Exception as e:  # noqa
+                got_old = e
+            if got_old is not still:
+                ctx.fail("after-rename/old-label-stale", f"{t}: after an item's label was changed, lookup of its old label {old_label!r} is stale")
+            if bool("renamed" in b) is not True:
+                ctx.fail("after-rename/membership-stale", f"{t}: after an item's label was changed to 'renamed', ('renamed' in b) is false")
+            target.label = old_label
         if n:
             # remove the first item through the public list / API and look its label up again
             first = items[0]
